@@ -37,7 +37,7 @@ def collect(props):
         prop = m.get("property")
         patch = os.path.join(os.path.dirname(meta), "patch.diff")
         if prop in props and os.path.exists(patch):
-            items.append((prop, "seeded/" + os.path.basename(os.path.dirname(meta)), patch))
+            items.append((prop, "seeded/" + os.path.basename(os.path.dirname(meta)) + ("~out-of-reach" if m.get("out_of_reach") else ""), patch))
     return items
 
 
@@ -71,7 +71,7 @@ def run(props, only=None):
         res = run_one(prop, name, patch)
         rows.append(res)
         print("sensitivity %-4s %-48s %-14s %s %ss" % (prop, name, res["status"], ",".join(res.get("invariants", [])), res.get("wall_s", "")))
-        if res["status"] != "caught":
+        if res["status"] != "caught" and not name.endswith("~out-of-reach"):
             ok = False
             print("    " + (res.get("detail") or res.get("tail") or "").replace("\n", "\n    "))
     out = os.path.join(VERIF, "evidence", "sensitivity.json")
